@@ -1002,7 +1002,7 @@ def _gen_rare_body(self, dir_):
     names = set()
     nm = lambda: _uniq_name(self.draw, self.field_pool, names, "f")   # noqa: E731
     shape = self.pick(["opt_length_break_string", "opt_length_opt_string", "only_opt_length_array",
-                       "only_hardcoded", "only_opt_string", "only_opt_enum"])
+                       "only_hardcoded", "only_opt_string", "only_opt_enum", "hardcoded_then_dummy"])
     ln = nm()
     lt = self.pick(["char", "short", "byte"])
     styp = self.pick(["string", "string", "encoded_string"])
@@ -1021,6 +1021,13 @@ def _gen_rare_body(self, dir_):
                 {"tag": "array", "name": nm(), "type": self.pick(INT_TYPES), "length": ln, "optional": True}], {}
     if shape == "only_hardcoded":
         return [{"tag": "field", "name": None, "type": self.pick(INT_TYPES), "value": str(self.draw(st.integers(0, 200)))}], {}
+    if shape == "hardcoded_then_dummy":
+        # the dummy is guarded by "nothing written / read so far" although the object has no named member at all
+        body = [{"tag": "field", "name": None, "type": self.pick(INT_TYPES), "value": str(self.draw(st.integers(0, 200)))}]
+        if self.boolean(0.3):
+            body.append({"tag": "field", "name": None, "type": "string", "value": "x", "length": "1"})
+        body.append({"tag": "dummy", "type": self.pick(["char", "short"]), "value": str(self.draw(st.integers(0, 200)))})
+        return body, {}
     if shape == "only_opt_enum":
         enums = self.visible_types(dir_, "enum")
         if enums:
